@@ -156,7 +156,11 @@ def judge_refuse(ctx, case):
             r = node.generate_children(interval=(i, i + 1))
         ok, obs, outcome = False, bridge.node_obs(r) if hasattr(r, "key") else r, "returned"
     except Exception as e:  # noqa
-        ok, obs, outcome = True, e, "raised:" + type(e).__name__
+        from ..core import raised_by_harness
+        if raised_by_harness(e):
+            ok, obs, outcome = False, "no refusal by the library; harness-side error afterwards: %r" % (e,), "returned"
+        else:
+            ok, obs, outcome = True, e, "raised:" + type(e).__name__
     # (whether the refusing node's `children` bookkeeping changed is not part of the property; recorded only)
     if ok and via == "ckd" and len(node.children) != n0:
         ctx.extra["refusal_changed_children_list"] = ctx.extra.get("refusal_changed_children_list", 0) + 1
